@@ -57,9 +57,9 @@ type ReportCase struct {
 	// ProjDir names the directory holding the spokfile ("" = proj)
 	ProjDir string `json:"proj_dir,omitempty"`
 	// Invoke: how spok is pointed at the project (sandbox.Box.Invoke)
-	Invoke  string      `json:"invoke,omitempty"`
+	Invoke string `json:"invoke,omitempty"`
 	// Outputs: "files" = standard output and error are regular files (sandbox.Box.FileOutputs)
-	Outputs string `json:"outputs,omitempty"`
+	Outputs string      `json:"outputs,omitempty"`
 	Vars    [][2]string `json:"vars"`
 	Tasks   []RTask     `json:"tasks"`
 	Actions []RAction   `json:"actions"`
